@@ -8,16 +8,25 @@
    atomic steps of Sync/Once.v; entries naming a disabled thread are skipped;
    no length bound). [run (init progs) s] is therefore an arbitrary reachable
    configuration. The trace is a ghost log of the steps taken, newest first.
-   sync.Once itself is the trusted abstract machine described in Sync/Once.v. *)
+   sync.Once itself is the trusted abstract machine described in Sync/Once.v.
+   A user function either returns its result tuple [f_res] or, when
+   [f_aborts] is set, leaves by a panic or runtime.Goexit: the Once is then
+   consumed all the same, nothing is written to the fields, and the caller of
+   that Do produces no response. [outcome_tuple f] is what every Do returns
+   once f was the function invoked: its results, or the zero values if it
+   aborted. With no aborting function the statements below are literally the
+   ones about returning functions only. *)
 From Typ Require Import Lib.Base Sync.Once Sync.OnceProofs.
 
 (* Exactly once: at most one function is ever started; never more completions
    than starts; and as soon as any Do has returned, exactly one function has
-   been started and exactly that one has completed, once. *)
+   been started and exactly that one has completed, once (or, if it aborted,
+   none has completed). *)
 Theorem C17_exactly_once : forall (V : Type) (zero : V) (arity : nat) (progs : list (list (ufun V))) (s : list tid),
   let tr := c_trace (run zero arity (init zero arity progs) s) in
   length (starts tr) <= 1 /\ length (fins tr) <= length (starts tr) /\
-  ((exists t r, In (ERet t r) tr) -> exists w f, starts tr = [(w, f)] /\ fins tr = [(w, f_res f)]).
+  ((exists t r, In (ERet t r) tr) ->
+     exists w f, starts tr = [(w, f)] /\ fins tr = (if f_aborts f then [] else [(w, f_res f)])).
 Proof. exact exactly_once. Qed.
 Print Assumptions C17_exactly_once.
 
@@ -31,12 +40,15 @@ Print Assumptions C17_started_was_passed.
 
 (* Same results: every tuple returned by any Do call, of any thread, at any
    time, is the tuple returned by the single invocation (its first [arity]
-   components; all of it when it has [arity] components, as Go's types force). *)
+   components; all of it when it has [arity] components, as Go's types force);
+   the zero values if that invocation panicked or called Goexit. *)
 Theorem C17_same_results : forall (V : Type) (zero : V) (arity : nat) (progs : list (list (ufun V))) (s : list tid) t r,
   let c := run zero arity (init zero arity progs) s in
   In (ERet t r) (c_trace c) ->
-  exists w f, starts (c_trace c) = [(w, f)] /\ fins (c_trace c) = [(w, f_res f)] /\
-    r = tuple zero arity (f_res f) /\ (length (f_res f) = arity -> r = f_res f).
+  exists w f, starts (c_trace c) = [(w, f)] /\ fins (c_trace c) = (if f_aborts f then [] else [(w, f_res f)]) /\
+    r = outcome_tuple zero arity f /\
+    (f_aborts f = false -> r = tuple zero arity (f_res f) /\ (length (f_res f) = arity -> r = f_res f)) /\
+    (f_aborts f = true -> r = repeat zero arity).
 Proof. exact same_results. Qed.
 Print Assumptions C17_same_results.
 
@@ -45,21 +57,43 @@ Print Assumptions C17_same_results.
 Theorem C17_rets_are_results : forall (V : Type) (zero : V) (arity : nat) (progs : list (list (ufun V))) (s : list tid) t th r,
   let c := run zero arity (init zero arity progs) s in
   nth_error (c_threads c) t = Some th -> In r (th_rets th) ->
-  c_once c = ODone /\ r = c_R c /\ exists w f, starts (c_trace c) = [(w, f)] /\ r = tuple zero arity (f_res f).
+  c_once c = ODone /\ r = c_R c /\ exists w f, starts (c_trace c) = [(w, f)] /\ r = outcome_tuple zero arity f.
 Proof. exact rets_are_results. Qed.
 Print Assumptions C17_rets_are_results.
 
 (* Returns after completion: whenever a Do call returns, the start, every
-   step, the completion of the invocation and the release of the Once all lie
-   earlier in the trace, and nothing of the invocation (no user step, no field
-   write) happens after any response. (Trace is newest first.) *)
+   step, the completion of the invocation and the release of the Once (or the
+   abort that released it) all lie earlier in the trace, and nothing of the
+   invocation (no user step, no field write) happens after any response.
+   (Trace is newest first.) *)
 Theorem C17_returns_after_completion : forall (V : Type) (zero : V) (arity : nat) (progs : list (list (ufun V))) (s : list tid)
     later t r earlier,
   c_trace (run zero arity (init zero arity progs) s) = later ++ ERet t r :: earlier ->
-  (exists w f, In (EStart w f) earlier /\ In (EFin w (f_res f)) earlier /\ In (EDone w) earlier) /\
+  (exists w f, In (EStart w f) earlier /\
+     ((f_aborts f = false /\ In (EFin w (f_res f)) earlier /\ In (EDone w) earlier) \/
+      (f_aborts f = true /\ In (EAbort w) earlier))) /\
   (forall e, In e later -> ~ is_work e).
 Proof. exact returns_after_completion. Qed.
 Print Assumptions C17_returns_after_completion.
+
+(* A function that panics or calls runtime.Goexit consumes the Once: from the
+   abort on, in every reachable configuration, the Once is done; the fields
+   were never written (no write event at all) and hold the zero values; the
+   aborting function is the only one ever started and it never completed;
+   every Do that returns - callers that were waiting and callers arriving
+   later alike - returns the zero values; the aborting caller itself is gone.
+   (That no other function is started afterwards is C17_exactly_once; that the
+   waiting callers are released is C17_no_deadlock.) *)
+Theorem C17_abort_consumes : forall (V : Type) (zero : V) (arity : nat) (progs : list (list (ufun V))) (s : list tid) w,
+  let c := run zero arity (init zero arity progs) s in
+  In (EAbort w) (c_trace c) ->
+  c_once c = ODone /\ c_R c = repeat zero arity /\
+  (exists f, starts (c_trace c) = [(w, f)] /\ f_aborts f = true) /\ fins (c_trace c) = [] /\
+  (forall e, In e (c_trace c) -> ~ is_write e) /\
+  (forall t r, In (ERet t r) (c_trace c) -> r = repeat zero arity) /\
+  (exists th, nth_error (c_threads c) w = Some th /\ th_pc th = PDead).
+Proof. exact abort_consumes. Qed.
+Print Assumptions C17_abort_consumes.
 
 (* Lock-discipline form of race freedom: a thread about to make the plain
    write of field i holds the Once (state Running t); a thread about to make a
@@ -80,7 +114,9 @@ Theorem C17_no_plain_race : forall (V : Type) (zero : V) (arity : nat) (progs : 
 Proof. exact no_plain_race. Qed.
 Print Assumptions C17_no_plain_race.
 
-(* The wrapper adds no deadlock: some thread can move until every call has returned. *)
+(* The wrapper adds no deadlock: some thread can move until every call has
+   returned or its goroutine is gone ([finished]); in particular callers
+   waiting while the invoked function aborts are released. *)
 Theorem C17_no_deadlock : forall (V : Type) (zero : V) (arity : nat) (progs : list (list (ufun V))) (s : list tid),
   let c := run zero arity (init zero arity progs) s in
   finished c \/ exists t c', step zero arity c t = Some c'.
@@ -89,11 +125,23 @@ Print Assumptions C17_no_deadlock.
 
 (* Non-vacuity: three goroutines on a Once2; thread 1 wins the race while
    thread 0 is already inside Do, thread 2 arrives later, thread 0 calls twice.
-   Every call returns thread 1's (5,6), one function ran, all calls returned. *)
+   Every call returns thread 1's (5,6), one function ran, all calls returned.
+   Second scenario: thread 0's function panics / calls Goexit after one step
+   while thread 1 is waiting inside Do; thread 2 arrives later. Thread 0 never
+   returns, the others get the zero values (0,0), no other function starts. *)
 Example C17_example :
-  let progs := [[UFun 1 [7;8]; UFun 0 [1;1]]; [UFun 2 [5;6]]; [UFun 0 [9;9]]]%Z in
+  let progs := [[UFun 1 [7;8] false; UFun 0 [1;1] false]; [UFun 2 [5;6] false]; [UFun 0 [9;9] false]]%Z in
   let c := run 0%Z 2 (init 0%Z 2 progs) ([0;1;1;0;1;1;1;1;1;1;1;1;1] ++ repeat 0 20 ++ repeat 2 10) in
-  starts (c_trace c) = [(1, UFun 2 [5;6]%Z)] /\ fins (c_trace c) = [(1, [5;6]%Z)] /\
+  starts (c_trace c) = [(1, UFun 2 [5;6]%Z false)] /\ fins (c_trace c) = [(1, [5;6]%Z)] /\
   map (@th_rets Z) (c_threads c) = [[[5;6];[5;6]]; [[5;6]]; [[5;6]]]%Z /\
-  (exists t r, In (ERet t r) (c_trace c)) /\ c_once c = ODone.
-Proof. vm_compute. repeat split. exists 2, [5;6]%Z. left. reflexivity. Qed.
+  (exists t r, In (ERet t r) (c_trace c)) /\ c_once c = ODone /\
+  let progs' := [[UFun 1 [7;8] true; UFun 0 [1;1] false]; [UFun 2 [5;6] false]; [UFun 0 [9;9] false]]%Z in
+  let c' := run 0%Z 2 (init 0%Z 2 progs') ([0;0;1;1;1;0;0] ++ repeat 1 10 ++ repeat 2 10 ++ repeat 0 10) in
+  starts (c_trace c') = [(0, UFun 1 [7;8]%Z true)] /\ fins (c_trace c') = [] /\ In (EAbort 0) (c_trace c') /\
+  map (@th_rets Z) (c_threads c') = [[]; [[0;0]]; [[0;0]]]%Z /\ c_R c' = [0;0]%Z /\
+  map (@th_pc Z) (c_threads c') = [PDead; PIdle; PIdle].
+Proof.
+  vm_compute. repeat split; try reflexivity.
+  - exists 2, [5;6]%Z. left. reflexivity.
+  - tauto.
+Qed.
